@@ -300,6 +300,371 @@ static unsigned int   opt_max_clients = DEFAULT_MAX_CLIENTS;
 static unsigned int   opt_debug_level = 0;
 static unsigned int   opt_buffer_count = DEFAULT_BUFFER_COUNT;
 
+#ifdef ZVBI_VERIF
+/* ----------------------------------------------------------------------------
+** Verification hook (compiled only with -DZVBI_VERIF, see /verif/DESIGN.md 1.9)
+** - device names with the reserved prefix "sim:" open the library's simulated
+**   capture device (io-sim.c) instead of a V4L/V4L2 device, wrapped in an
+**   adapter that supplies the methods the daemon calls but io-sim lacks
+** - name syntax: sim:<mode>[,<option>...]:<free text>
+**     mode "select": frames are paced by a timerfd, get_fd() returns it and
+**                    get_fd_flags() reports VBI_FD_HAS_SELECT
+**     mode "thread": read() blocks (nanosleep pacing), no select support, so
+**                    that the daemon takes its acquisition thread path
+**     option "dyn":  sampling parameters (start[], count[]) follow the
+**                    requested services as with a V4L2 driver, instead of the
+**                    fixed parameters of the simulation
+**     option "pad":  with "dyn", report one more line in count[0]
+** - frame n (counted over the life time of the process) has the timestamp
+**   n/25.0 and contents which depend on n only: of the lines the simulation
+**   generates (fixed ids and line numbers) those are kept whose service was
+**   requested from the device and for which verif_sim_drop() is false; all 56
+**   payload bytes are replaced by the 64 bit word verif_sim_word(), repeated
+** - environment: VERIF_SIM_PERIOD_US frame period (default 4000),
+**   VERIF_SIM_STARTUP_US time the first read after open blocks in mode "thread" (default 40000),
+**   VERIF_SIM_LOG file to append one line per open, close, flush and
+**   update_services call
+*/
+#include <stdarg.h>
+#include <sys/timerfd.h>
+#include "src/io-sim.h"
+#include "src/sampling_par.h"
+
+#define VERIF_SIM_PREFIX  "sim:"
+#define VERIF_SIM_SERVICES  (VBI_SLICED_TELETEXT_B | VBI_SLICED_VPS | \
+                             VBI_SLICED_CAPTION_625 | VBI_SLICED_WSS_625)
+
+typedef struct
+{
+        vbi_capture             cap;            /* must be first */
+        vbi_capture           * p_sim;
+        vbi_bool                use_select;
+        vbi_bool                dyn_params;
+        vbi_bool                pad_params;
+        int                     timer_fd;
+        long                    period_us;
+        long                    startup_us;
+        vbi_bool                started;
+        unsigned int            supported;
+        unsigned int            services;
+        vbi_raw_decoder         dec;
+} VERIF_SIM;
+
+static unsigned long verif_sim_frame_no;
+
+static uint64_t verif_sim_mix( uint64_t x )
+{
+   x += 0x9E3779B97F4A7C15ULL;
+   x = (x ^ (x >> 30)) * 0xBF58476D1CE4E5B9ULL;
+   x = (x ^ (x >> 27)) * 0x94D049BB133111EBULL;
+   return x ^ (x >> 31);
+}
+
+static uint64_t verif_sim_word( unsigned long frame_no, unsigned int line )
+{
+   return verif_sim_mix((uint64_t) frame_no * 4096 + line);
+}
+
+static vbi_bool verif_sim_drop( unsigned long frame_no, unsigned int line )
+{
+   return (verif_sim_mix((uint64_t) frame_no * 4096 + 2048 + line) % 6) == 0;
+}
+
+static void verif_sim_log( const char * fmt, ... )
+{
+   const char * p_path = getenv("VERIF_SIM_LOG");
+   struct timespec ts;
+   char    buf[256];
+   va_list ap;
+   int     len;
+   int     fd;
+
+   if ((p_path != NULL) && (*p_path != 0))
+   {
+      clock_gettime(CLOCK_MONOTONIC, &ts);
+      len = snprintf(buf, sizeof(buf) - 2, "%ld.%06ld n=%lu ",
+                     (long) ts.tv_sec, ts.tv_nsec / 1000, verif_sim_frame_no);
+      va_start(ap, fmt);
+      len += vsnprintf(buf + len, sizeof(buf) - 2 - len, fmt, ap);
+      va_end(ap);
+      if (len > (int) sizeof(buf) - 2)
+         len = sizeof(buf) - 2;
+      buf[len++] = '\n';
+
+      fd = open(p_path, O_WRONLY | O_APPEND | O_CREAT, 0666);
+      if (fd != -1)
+      {
+         if (write(fd, buf, len) != len)
+            perror("VERIF_SIM_LOG");
+         close(fd);
+      }
+   }
+}
+
+static int verif_sim_read( vbi_capture * vc, vbi_capture_buffer ** pp_raw,
+                           vbi_capture_buffer ** pp_sliced, const struct timeval * p_timeout )
+{
+   VERIF_SIM    * v = (VERIF_SIM *) vc;
+   vbi_capture_buffer * p_sim_buf;
+   vbi_sliced   * p_lines;
+   vbi_sliced   * p_out;
+   struct timespec ts;
+   uint64_t  expirations;
+   uint64_t  word;
+   unsigned long frame_no;
+   char  caption[4];
+   int   count, in, out, idx;
+   int   ret;
+
+   if (v->use_select)
+   {  /* one frame per call, however many periods expired */
+      if (read(v->timer_fd, &expirations, sizeof(expirations)) != sizeof(expirations))
+         return 0;  /* timeout */
+   }
+   else
+   {  /* note nanosleep is a cancellation point, like read(2) on a device;
+      ** the first read after opening the device takes startup_us, as a driver delivers its first frame one real frame period after streaming starts */
+      long sleep_us = (v->started ? v->period_us : ((v->startup_us > v->period_us) ? v->startup_us : v->period_us));
+      /* sleep in slices of 1 ms with an explicit cancellation test in between, because the signal based
+      ** cancellation of a blocked nanosleep is not acted upon under ThreadSanitizer */
+      while (sleep_us > 0)
+      {
+         long slice_us = (sleep_us > 1000) ? 1000 : sleep_us;
+         ts.tv_sec  = 0;
+         ts.tv_nsec = slice_us * 1000L;
+         nanosleep(&ts, NULL);
+         pthread_testcancel();
+         sleep_us -= slice_us;
+      }
+      v->started = TRUE;
+   }
+
+   frame_no = verif_sim_frame_no;
+
+   /* two printable characters which depend on the frame number: the caption line is always present */
+   caption[0] = 'A' + (frame_no % 26);
+   caption[1] = 'a' + ((frame_no / 26) % 26);
+   caption[2] = 0;
+   vbi_capture_sim_load_caption(v->p_sim, caption, FALSE);
+
+   /* let the simulation return its own buffer (it is not bounded by count[]), then copy what is kept */
+   p_sim_buf = NULL;
+   ret = v->p_sim->read(v->p_sim, pp_raw, (pp_sliced != NULL) ? &p_sim_buf : NULL, p_timeout);
+   if (ret <= 0)
+      return ret;
+
+   if ((pp_raw != NULL) && (*pp_raw != NULL))
+      (*pp_raw)->timestamp = frame_no / 25.0;
+
+   if ((pp_sliced != NULL) && (p_sim_buf != NULL))
+   {
+      p_lines = (vbi_sliced *) p_sim_buf->data;
+      count   = p_sim_buf->size / sizeof(vbi_sliced);
+      if (*pp_sliced == NULL)
+         *pp_sliced = p_sim_buf;
+      p_out   = (vbi_sliced *) (*pp_sliced)->data;
+      out     = 0;
+      for (in = 0; in < count; in++)
+      {
+         if ( ((p_lines[in].id & v->services) != 0) &&
+              (verif_sim_drop(frame_no, p_lines[in].line) == FALSE) &&
+              /* only rows inside the sampled window, as a driver delivers them */
+              ( ((int) p_lines[in].line - v->dec.start[0] < v->dec.count[0] && (int) p_lines[in].line >= v->dec.start[0]) ||
+                ((int) p_lines[in].line - v->dec.start[1] < v->dec.count[1] && (int) p_lines[in].line >= v->dec.start[1]) ) )
+         {
+            word = verif_sim_word(frame_no, p_lines[in].line);
+            p_out[out].id   = p_lines[in].id;
+            p_out[out].line = p_lines[in].line;
+            for (idx = 0; idx + 8 <= (int) sizeof(p_out[out].data); idx += 8)
+               memcpy(p_out[out].data + idx, &word, 8);
+            out += 1;
+         }
+      }
+      (*pp_sliced)->size      = out * sizeof(vbi_sliced);
+      (*pp_sliced)->timestamp = frame_no / 25.0;
+   }
+
+   verif_sim_frame_no = frame_no + 1;
+
+   return ret;
+}
+
+static vbi_raw_decoder * verif_sim_parameters( vbi_capture * vc )
+{
+   VERIF_SIM * v = (VERIF_SIM *) vc;
+
+   return &v->dec;
+}
+
+static void verif_sim_update_params( VERIF_SIM * v, unsigned int services )
+{
+   vbi_raw_decoder * p_sim_dec = vbi_capture_parameters(v->p_sim);
+   vbi_raw_decoder   tmp_dec;
+
+   if (v->dyn_params && (services != 0))
+   {
+      memset(&tmp_dec, 0, sizeof(tmp_dec));
+      if (vbi_sampling_par_from_services(&tmp_dec, NULL,
+                                         _vbi_videostd_set_from_scanning(625), services) != 0)
+      {
+         v->dec.start[0] = tmp_dec.start[0];
+         v->dec.count[0] = tmp_dec.count[0] + (v->pad_params ? 1 : 0);
+         v->dec.start[1] = tmp_dec.start[1];
+         v->dec.count[1] = tmp_dec.count[1];
+      }
+   }
+   else
+   {
+      v->dec.start[0] = p_sim_dec->start[0];
+      v->dec.count[0] = p_sim_dec->count[0];
+      v->dec.start[1] = p_sim_dec->start[1];
+      v->dec.count[1] = p_sim_dec->count[1];
+   }
+}
+
+static unsigned int verif_sim_update_services( vbi_capture * vc, vbi_bool reset, vbi_bool commit,
+                                               unsigned int services, int strict, char ** pp_errorstr )
+{
+   VERIF_SIM    * v = (VERIF_SIM *) vc;
+   unsigned int   granted;
+
+   if (reset)
+      v->services = 0;
+
+   granted = services & v->supported;
+   if (granted != 0)
+      granted &= vbi_sampling_par_check_services(vbi_capture_parameters(v->p_sim), granted,
+                                                 (strict < 0) ? 0 : strict);
+
+   verif_sim_update_params(v, v->services | (services & v->supported));
+
+   v->services |= granted;
+
+   if ((granted == 0) && (pp_errorstr != NULL))
+      asprintf(pp_errorstr, "Sorry, the simulated device cannot capture any of the requested data services.");
+
+   verif_sim_log("U reset=%d commit=%d req=0x%X strict=%d granted=0x%X all=0x%X count=%d+%d start=%d+%d",
+                 reset, commit, services, strict, granted, v->services, v->dec.count[0], v->dec.count[1],
+                 v->dec.start[0], v->dec.start[1]);
+
+   return granted;
+}
+
+static int verif_sim_get_scanning( vbi_capture * vc )
+{
+   vc = vc;
+   return 625;
+}
+
+static void verif_sim_flush( vbi_capture * vc )
+{
+   vc = vc;
+   verif_sim_log("F");
+}
+
+static int verif_sim_get_fd( vbi_capture * vc )
+{
+   VERIF_SIM * v = (VERIF_SIM *) vc;
+
+   return v->timer_fd;
+}
+
+static VBI_CAPTURE_FD_FLAGS verif_sim_get_fd_flags( vbi_capture * vc )
+{
+   VERIF_SIM * v = (VERIF_SIM *) vc;
+
+   return (v->use_select ? VBI_FD_HAS_SELECT : 0);
+}
+
+static void verif_sim_delete( vbi_capture * vc )
+{
+   VERIF_SIM * v = (VERIF_SIM *) vc;
+
+   verif_sim_log("C");
+
+   if (v->timer_fd != -1)
+      close(v->timer_fd);
+   vbi_capture_delete(v->p_sim);
+   free(v);
+}
+
+static vbi_capture * verif_sim_new( const char * p_dev_name, char ** pp_errorstr )
+{
+   VERIF_SIM  * v;
+   const char * p_mode = p_dev_name + strlen(VERIF_SIM_PREFIX);
+   const char * p_mode_end = strchr(p_mode, ':');
+   const char * p_env;
+   struct itimerspec its;
+   unsigned int services = VERIF_SIM_SERVICES;
+
+   if (p_mode_end == NULL)
+      p_mode_end = p_mode + strlen(p_mode);
+
+   v = calloc(1, sizeof(*v));
+   if (v == NULL)
+      return NULL;
+
+   v->timer_fd   = -1;
+   v->use_select = (strncmp(p_mode, "thread", 6) != 0);
+   v->dyn_params = (memmem(p_mode, p_mode_end - p_mode, ",dyn", 4) != NULL);
+   v->pad_params = (memmem(p_mode, p_mode_end - p_mode, ",pad", 4) != NULL);
+   v->period_us  = 4000;
+   p_env = getenv("VERIF_SIM_PERIOD_US");
+   if ((p_env != NULL) && (atol(p_env) > 0))
+      v->period_us = atol(p_env);
+   v->startup_us = 40000;
+   p_env = getenv("VERIF_SIM_STARTUP_US");
+   if ((p_env != NULL) && (atol(p_env) >= 0))
+      v->startup_us = atol(p_env);
+
+   v->p_sim = vbi_capture_sim_new(625, &services, /* interlaced */ FALSE, /* synchronous */ TRUE);
+   if (v->p_sim == NULL)
+   {
+      if (pp_errorstr != NULL)
+         asprintf(pp_errorstr, "Cannot open the simulated device '%s'.", p_dev_name);
+      free(v);
+      return NULL;
+   }
+   v->supported = services;
+   v->dec = *vbi_capture_parameters(v->p_sim);
+   v->dec.pattern = NULL;
+
+   if (v->use_select)
+   {
+      v->timer_fd = timerfd_create(CLOCK_MONOTONIC, TFD_NONBLOCK | TFD_CLOEXEC);
+      memset(&its, 0, sizeof(its));
+      its.it_value.tv_sec     = v->period_us / 1000000L;
+      its.it_value.tv_nsec    = (v->period_us % 1000000L) * 1000L;
+      its.it_interval         = its.it_value;
+      if ((v->timer_fd == -1) || (timerfd_settime(v->timer_fd, 0, &its, NULL) != 0))
+      {
+         if (pp_errorstr != NULL)
+            asprintf(pp_errorstr, "Cannot create a timer for the simulated device: %s.", strerror(errno));
+         if (v->timer_fd != -1)
+            close(v->timer_fd);
+         vbi_capture_delete(v->p_sim);
+         free(v);
+         return NULL;
+      }
+   }
+
+   v->cap.read            = verif_sim_read;
+   v->cap.parameters      = verif_sim_parameters;
+   v->cap.update_services = verif_sim_update_services;
+   v->cap.get_scanning    = verif_sim_get_scanning;
+   v->cap.flush           = verif_sim_flush;
+   v->cap.get_fd          = verif_sim_get_fd;
+   v->cap.get_fd_flags    = verif_sim_get_fd_flags;
+   v->cap._delete         = verif_sim_delete;
+
+   verif_sim_log("O %s select=%d dyn=%d period_us=%ld supported=0x%X count=%d+%d start=%d+%d",
+                 p_dev_name, v->use_select, v->dyn_params, v->period_us, v->supported,
+                 v->dec.count[0], v->dec.count[1], v->dec.start[0], v->dec.start[1]);
+
+   return &v->cap;
+}
+#endif  /* ZVBI_VERIF */
+
 /* ----------------------------------------------------------------------------
 ** Add one buffer to the tail of a queue
 ** - slicer queue is organized so that new data is appended to the tail,
@@ -957,6 +1322,15 @@ static vbi_bool vbi_proxy_start_acquisition( int dev_idx, char ** pp_errorstr )
    if (pp_errorstr == NULL)
       pp_errorstr = &p_errorstr;
 
+#ifdef ZVBI_VERIF
+   if (strncmp(p_proxy_dev->p_dev_name, VERIF_SIM_PREFIX, strlen(VERIF_SIM_PREFIX)) == 0)
+   {
+      p_proxy_dev->vbi_api = VBI_API_V4L2;
+      p_proxy_dev->p_capture = verif_sim_new(p_proxy_dev->p_dev_name, pp_errorstr);
+   }
+   else
+   {
+#endif
    p_proxy_dev->vbi_api = VBI_API_V4L2;
    p_proxy_dev->p_capture = vbi_capture_v4l2_new(p_proxy_dev->p_dev_name, opt_buffer_count,
                                                  NULL, -1, pp_errorstr, opt_debug_level);
@@ -966,6 +1340,9 @@ static vbi_bool vbi_proxy_start_acquisition( int dev_idx, char ** pp_errorstr )
       p_proxy_dev->p_capture = vbi_capture_v4l_new(p_proxy_dev->p_dev_name, p_proxy_dev->scanning,
                                                    NULL, -1, pp_errorstr, opt_debug_level);
    }
+#ifdef ZVBI_VERIF
+   }
+#endif
 
    if (p_proxy_dev->p_capture != NULL)
    {
@@ -3015,12 +3392,19 @@ static void vbi_proxyd_parse_argv( int argc, char * argv[] )
          {
             if (proxy.dev_count >= SRV_MAX_DEVICES)
                proxy_usage_exit(argv[0], argv[arg_idx], "too many device paths");
+#ifdef ZVBI_VERIF
+            if (strncmp(argv[arg_idx + 1], VERIF_SIM_PREFIX, strlen(VERIF_SIM_PREFIX)) != 0)
+            {
+#endif
             if (stat(argv[arg_idx + 1], &stb) == -1)
                proxy_usage_exit(argv[0], argv[arg_idx +1], strerror(errno));
             if (!S_ISCHR(stb.st_mode))
                proxy_usage_exit(argv[0], argv[arg_idx +1], "not a character device");
             if (access(argv[arg_idx + 1], R_OK | W_OK) == -1)
                proxy_usage_exit(argv[0], argv[arg_idx +1], "failed to access device");
+#ifdef ZVBI_VERIF
+            }
+#endif
 
             vbi_proxyd_add_device(argv[arg_idx + 1]);
             arg_idx += 2;
